@@ -232,7 +232,7 @@ class Adapter(EnvAdapter):
                 _c("randperm4", "randperm", 4, episodes=16, max_steps=2, policies=["masked"], props=INJ_PROPS),
                 _c("randperm5", "randperm", 5, episodes=10, max_steps=2, policies=["masked"], props=INJ_PROPS),
             ]
-        out = [_c("default5", "default", 5, episodes=6, max_steps=505, probe_every=5,
+        out = [_c("default5", "default", 5, episodes=3, max_steps=505, probe_every=10,
                   policies=["survive", "random", "mostly_masked"])]
         for n in (2, 3, 4, 5):
             for rw in ("dense", "sparse"):
